@@ -26,6 +26,7 @@ func listGo(dir string) ([]string, error) {
 
 // extraFacts / writeExtra: hooks for property-specific facts added later.
 func extraFacts() {
+	c10WriteFacts() // C10 panic-site / construction-site facts (c10.go): .facts.C10.json
 	c19Facts() // C19 write-set extractor (c19.go): writeSites / writeSetInfo in .facts.json
 }
 
